@@ -1170,6 +1170,24 @@ def site_rewrite(ctx, sf, it, rule, anchor, nth, ropts, what):
         call = ropts["call"].replace("~", " ")
         edits.append(Edit(s, end, call + (";" if end != e else "")))
         ctx.fire("O1", sf, s, f"opaque statement -> {call}")
+    elif rule == "N12L":
+        # alpha-renaming of a local that shadows a parameter (`let pos = pos.into();`): the binding in the anchor and every
+        # later use in the function body are renamed, so that contracts can still name the parameter
+        frm, to = ropts["from"], ropts["to"]
+        k = a
+        while k < b and toks[k].text != frm:
+            k += 1
+        if k >= b or toks[k - 1].text not in ("let", "mut"):
+            raise LostAnchor(f"{what}: N12L anchor must contain `let {frm}`")
+        edits.append(Edit(toks[k].start, toks[k].end, to))
+        body_hi_tok = it.body_close
+        for j in range(b, body_hi_tok):
+            if toks[j].kind == "id" and toks[j].text == frm and toks[j - 1].text not in (".", "::"):
+                # field init shorthand / struct field names are not renamed: `frm:` preceded by `{` or `,`
+                if toks[j + 1].text == ":" and toks[j - 1].text in ("{", ","):
+                    continue
+                edits.append(Edit(toks[j].start, toks[j].end, to))
+        ctx.fire("N12L", sf, toks[k].start, f"local {frm} -> {to}")
     elif rule == "N12":
         frm, to = ropts["from"], ropts["to"]
         k = a
@@ -1381,6 +1399,8 @@ HEADER = """// GENERATED by /verif/vx/extract.py from /repo's working tree -- do
 #![allow(unused_imports, unused_variables, unused_mut, dead_code, unused_assignments, unused_parens, non_snake_case, non_upper_case_globals, unreachable_code, unused_braces)]
 use vstd::prelude::*;
 use std::collections::HashMap;
+use std::ops::{Add, AddAssign, Sub, SubAssign};
+use std::collections::VecDeque;
 verus! {
 """
 FOOTER = """
@@ -1428,6 +1448,16 @@ def assemble(repo, unit_path, extra_header=""):
                 segs.append(Seg(f"\n{wtxt} {{\n", ("raw", f"impl-open {wrap}")))
                 open_impl = wrap
             segs.append(Seg(ent[1] + "\n", ("raw", ent[3])))
+        elif ent[0] == "item" and ent[1].opts.get("in"):
+            wrap = ent[1].opts["in"].replace("~", " ")
+            if open_impl is None or rustlex.norm_ws(wrap) != rustlex.norm_ws(open_impl):
+                close_impl()
+                segs.append(Seg(f"\n{wrap} {{\n", ("raw", f"impl-open {wrap}")))
+                open_impl = wrap
+            s, info = build_item(ctx, unit, ent[1])
+            gen.items.append(info)
+            segs += s
+            segs.append(Seg("\n", ("raw", "sep")))
         elif ent[0] == "item":
             close_impl()
             s, info = build_item(ctx, unit, ent[1])
